@@ -33,50 +33,7 @@ static void run_root(Root& root, int const* data, idx N, std::vector<idx> const&
 	mc::R.note(rootname + ": completed_depth=" + std::to_string(st.completed_depth) + " states=" + std::to_string(st.states) + " transitions=" + std::to_string(st.transitions) + (st.capped ? " CAPPED" : ""));
 }
 
-template<int D>
-static void run_shape(std::vector<idx> const& sizes, bool owning, Config const& cfg, std::set<std::string> const& skip) {
-	idx N = 1; for(auto s : sizes) { N *= s; }
-	std::string name = (owning ? "array<int," : "array_ref<int,") + std::to_string(D) + ">{";
-	for(std::size_t i = 0; i < sizes.size(); ++i) { name += (i ? "," : ""); name += std::to_string(sizes[i]); }
-	name += "}";
-	auto exts = vo::make_extensions<D>(sizes);
-	std::string prefix;
-	for(std::size_t i = 0; i < sizes.size(); ++i) { prefix += (i ? "x" : ""); prefix += std::to_string(sizes[i]); }
-	prefix += owning ? "/o/" : "/r/";
-	if(owning) {
-		multi::array<int, D> a(exts);
-		run_root<D>(a, a.data_elements(), N, sizes, name, prefix, cfg, skip);
-	} else {
-		vo::GuardBuffer<int> g(N);
-		multi::array_ref<int, D> a(exts, g.data());
-		run_root<D>(a, g.data(), N, sizes, name, prefix, cfg, skip);
-		if(!g.intact()) { mc::R.violation("D" + std::to_string(D) + "|guard", mc::J().s("root", name).s("detail", "guard elements modified").str()); }
-	}
-}
-
-struct Shape { std::vector<idx> s; bool thorough_only; };
-static std::vector<Shape> const shapes = {
-	{{0}, false}, {{1}, false}, {{2}, false}, {{3}, false}, {{4}, false}, {{6}, false}, {{5}, true}, {{8}, true},
-	{{2, 3}, false}, {{3, 2}, false}, {{4, 2}, false}, {{1, 3}, false}, {{3, 1}, false}, {{1, 1}, false}, {{0, 3}, false}, {{2, 0}, false},
-	{{3, 4}, true}, {{4, 3}, true}, {{2, 6}, true}, {{6, 2}, true}, {{4, 4}, true},
-	{{2, 3, 2}, false}, {{1, 2, 3}, false}, {{3, 1, 2}, false}, {{2, 0, 2}, false},
-	{{2, 2, 3}, true}, {{2, 3, 4}, true}, {{4, 2, 2}, true}, {{3, 3, 3}, true},
-	{{2, 1, 2, 3}, false}, {{2, 2, 2, 2}, true}, {{1, 2, 3, 2}, true}, {{3, 2, 1, 2}, true},
-};
-
-static void dispatch(Shape const& sh, bool owning, Config const& cfg, std::set<std::string> const& skip) {
-#ifdef ONLY_RANK
-	if(sh.s.size() == ONLY_RANK) { run_shape<ONLY_RANK>(sh.s, owning, cfg, skip); }
-#else
-	switch(sh.s.size()) {
-		case 1: run_shape<1>(sh.s, owning, cfg, skip); break;
-		case 2: run_shape<2>(sh.s, owning, cfg, skip); break;
-		case 3: run_shape<3>(sh.s, owning, cfg, skip); break;
-		case 4: run_shape<4>(sh.s, owning, cfg, skip); break;
-		default: break;
-	}
-#endif
-}
+#include "../engine/view_roots.hpp"
 
 int main(int argc, char** argv) {
 	mc::Args args(argc, argv);
@@ -87,29 +44,5 @@ int main(int argc, char** argv) {
 	cfg.menu0.call_full = true; cfg.menu0.call_maxargs = 3;
 	cfg.menu.call_full = false; cfg.menu.call_maxargs = 2;
 	cfg.full_call_depth = 1;
-	long shard = args.geti("shard", 0), nshards = args.geti("nshards", 1);
-	mc::set_deadline(static_cast<double>(args.geti("deadline", 3000)));
-
-	if(args.has("replay")) {  // --replay='<root sizes e.g. 2x3>/<o|r>/<trace>'
-		std::string r = args.get("replay");
-		auto p1 = r.find('/'), p2 = r.find('/', p1 + 1);
-		std::string ss = r.substr(0, p1), own = r.substr(p1 + 1, p2 - p1 - 1), tr = r.substr(p2 + 1);
-		Shape sh; { std::string cur; for(char c : ss + "x") { if(c == 'x') { sh.s.push_back(std::atol(cur.c_str())); cur.clear(); } else { cur += c; } } }
-		Hist h = parse_hist(tr);
-		return vo::replay_one(sh.s, own == "o", h);
-	}
-
-	return mc::supervise([&](std::set<std::string> const& skip) {
-		long i = 0;
-		for(auto const& sh : shapes) {
-			if(sh.thorough_only && !thorough) { continue; }
-			for(int owning = 0; owning < 2; ++owning) {
-				idx N = 1; for(auto s : sh.s) { N *= s; }
-				if(owning && N == 0) { continue; }  // empty owning arrays have a null base: non-zero-offset slicing is UB there (DESIGN §3)
-				if((i++ % nshards) != shard) { continue; }
-				dispatch(sh, owning != 0, cfg, skip);
-			}
-		}
-		mc::R.emit(stdout);
-	});
+	return vr::main_roots(args, cfg, thorough, [](std::vector<idx> const& sizes, bool owning, Hist const& h) { return vo::replay_one(sizes, owning, h); });
 }
